@@ -40,6 +40,19 @@ def warm() -> None:
 
 # ------------------------------------------------------------------ generation
 def gen_files(rng, name, tier):
+    if rng.random() < (0.02 if tier == "quick" else 0.06):
+        # size thresholds (pages, tiles, coalescing buffers) are invisible to 40-sample files
+        nbits = rng.choice([1, 2, 4, 8, 32])
+        nchans = rng.choice([c for c in (64, 128, 256) if (c * nbits) % 8 == 0])
+        total = rng.randint(300, 1500)
+        nfiles = rng.choice([1, 2])
+        counts = [total] if nfiles == 1 else [total // 3, total - total // 3]
+        spec = {"nbits": nbits, "nchans": nchans, "nsamps": counts, "pad": [0] * nfiles, "vseed": rng.randrange(1 << 16),
+                "mode": T.data_mode(name, nbits), "big": True}
+        if T.needs_disp_band(name):
+            spec.update(T.DISP_BAND)
+            spec["foff"] = -10.0 * 16 / nchans  # keep the band (hence the sweep) the same width
+        return spec
     nbits = rng.choice([1, 2, 4, 8, 8, 32, 32])
     chans = [c for c in (1, 2, 4, 6, 8, 12, 16) if (c * nbits) % 8 == 0]
     if T.needs_disp_band(name):
@@ -76,6 +89,9 @@ def generate(rng, tier) -> dict:
     ops = []
     for _ in range(rng.choice([1, 2, 2])):
         ops.append({"gulp": max(1, rng.choice([1, 2, 3, rng.randint(1, max(1, ns)), ns, ns + rng.randint(1, 4), max(1, ns // 2), max(1, ns // 3)]))})
+    if len(ops) == 2 and rng.random() < 0.3 and N >= 2:
+        st2 = rng.randint(0, N - 1)
+        ops[1].update({"start": st2, "nsamps": rng.randint(1, N - st2)})
     faults = []
     if rng.random() < 0.25:
         for _ in range(rng.choice([1, 1, 2])):
@@ -102,6 +118,9 @@ def fixup(sc):
         sc["nsamps"] = max(1, min(sc["nsamps"], N - sc["start"]))
     for o in sc["ops"]:
         o["gulp"] = max(1, o["gulp"])
+        if "start" in o:
+            o["start"] = max(0, min(o["start"], N - 1))
+            o["nsamps"] = max(1, min(o["nsamps"], N - o["start"]))
     for o in sc.get("pre", []):
         o["start"] = max(0, min(o["start"], N - 1))
         o["nsamps"] = max(1, min(o["nsamps"], N - o["start"]))
@@ -200,42 +219,54 @@ def execute(sc, ctx) -> None:
     spec, name, params = sc["files"], sc["name"], sc["params"]
     fs = filgen.write_fileset(ctx.root, spec)
     N, nbits, nchans = fs.nsamples, spec["nbits"], spec["nchans"]
-    start, nsamps = sc["start"], sc["nsamps"]
-    ns = N - start if nsamps is None else nsamps
-    X = fs.samples[start : start + ns]
-    eof = "toEOF" if start + ns == N else "beforeEOF"
     if len(spec["nsamps"]) > 1:
         ctx.probe("multi-file")
     if nbits < 8:
         ctx.probe("sub-byte")
-    if eof == "beforeEOF":
-        ctx.probe("sub-range-before-EOF")
-    ctx.sig += [name, f"nbits{nbits}", eof, "multi" if len(spec["nsamps"]) > 1 else "single"]
+    if spec.get("big"):
+        ctx.probe("big-blocks")
+    ctx.sig += [name, f"nbits{nbits}", "multi" if len(spec["nsamps"]) > 1 else "single"]
 
     with SimDisk(ctx, sc["faults"]) as sim:
         reader = FilReader(fs.paths)
         delays = None
-        md = 0
         if name == "subband":
             delays = np.atleast_1d(np.asarray(reader.header.get_dmdelays(params["dm"])))
-            md = T.dedisp_domain(delays, ns)
-            if md > 0:
-                ctx.probe("subband:maxdelay>0")
-        exps = T.define(name, X, fs.samples, spec, params, delays)
-        if name == "remove_zerodm" and not T.in_range_for_zerodm(exps[0], nbits):
-            raise Rejected("zero-DM definition leaves the representable range")
-        if name == "remove_zerodm":
-            ctx.probe("zerodm:in-range")
-        ns_out = exps[0].data.shape[0]
         crcs = []
+        windows = []
         if sc.get("pre"):
             # earlier, unrelated calls on the SAME reader object: the transform must not depend on them
             from .c06 import run_pre
 
-            sim.begin_op(-1, budget=100000)
+            sim.begin_op(-1, budget=1000000)
             run_pre(reader, sc["pre"], ctx)
         for i, op in enumerate(sc["ops"]):
             gulp = op["gulp"]
+            start = op.get("start", sc["start"])
+            nsamps = op["nsamps"] if "start" in op else sc["nsamps"]
+            ns = N - start if nsamps is None else nsamps
+            X = fs.samples[start : start + ns]
+            eof = "toEOF" if start + ns == N else "beforeEOF"
+            if "start" in op:
+                ctx.probe("second-window-on-same-reader")
+            if eof == "beforeEOF":
+                ctx.probe("sub-range-before-EOF")
+            md = 0
+            try:
+                if name == "subband":
+                    md = T.dedisp_domain(delays, ns)
+                    if md > 0:
+                        ctx.probe("subband:maxdelay>0")
+                exps = T.define(name, X, fs.samples, spec, params, delays)
+                if name == "remove_zerodm" and not T.in_range_for_zerodm(exps[0], nbits):
+                    raise Rejected("zero-DM definition leaves the representable range")
+            except Rejected:
+                if i == 0:
+                    raise
+                continue  # the second window is outside the transform's domain
+            if name == "remove_zerodm":
+                ctx.probe("zerodm:in-range")
+            ns_out = exps[0].data.shape[0]
             # probes from the arguments
             g_eff = gulp
             skip = 0
@@ -261,7 +292,7 @@ def execute(sc, ctx) -> None:
                     ctx.probe("multi-batch-extract")
             if name == "extract_chans" and nbits == 8:
                 ctx.probe("extract_chans:8bit-to-32bit-tim")
-            sim.begin_op(i, budget=16 * (nblk + 2) * (len(spec["nsamps"]) + 2) * max(1, len(exps)) + 64)
+            sim.begin_op(i, budget=16 * (nblk + 2) * (len(spec["nsamps"]) + 2) * max(1, len(exps)) + 64 + (2000 if name == "remove_zerodm" else 0))
             sim.free_space()
             fired0 = sum(ctx.faults.values())
             info = {"api": name, "params": params, "gulp": gulp, "start": start, "nsamps": ns, "N": N, "nbits": nbits,
@@ -307,10 +338,11 @@ def execute(sc, ctx) -> None:
                 if hdr_ns != ns_out:
                     raise mk("reader-infers-other-count", f"{ctx.rel(path)}: FilReader says {hdr_ns}, definition {ns_out}")
             ctx.probe(f"ok:{name}")
-            ctx.log("call", i, name, gulp, these)
+            ctx.log("call", i, name, gulp, start, ns, these)
             crcs.append(these)
-        if len(crcs) >= 2:
+            windows.append((start, ns))
+        if len(crcs) >= 2 and windows[0] == windows[1]:
             ctx.probe("two-gulps-compared")
             if name in ("invert_freq", "apply_channel_mask", "extract_samps", "extract_chans", "extract_bands", "subband") and crcs[0] != crcs[1]:
-                raise Violation(f"C07/{name}/gulp-dependence/{eof}", "outputs differ between two gulps", {"api": name, "params": params})
+                raise Violation(f"C07/{name}/gulp-dependence", "outputs differ between two gulps", {"api": name, "params": params})
         reader._file.close()
